@@ -114,6 +114,24 @@ def describe(case):
     return "client frames: " + case
 
 
+def canon_trace(line):
+    """frames of a trace line in comparable form: action markers, the server preface (its SETTINGS and the connection WINDOW_UPDATE that
+    follows) and HPACK block lengths removed; argument fields kept only where the frame type has one"""
+    out = []
+    seen_wu = False
+    for tok in line.partition(" |")[0].split():
+        if tok.endswith(":") or tok[0] not in "cs": continue
+        t, f, sid, ln, a, a2 = tok[1:].split(".")
+        t = int(t); fl = int(f, 16)
+        if tok[0] == "s" and t == 4 and not fl & 1: continue
+        if tok[0] == "s" and t == 8 and sid == "0" and not seen_wu:
+            seen_wu = True; continue
+        if t == 1: ln = "0"
+        keep_a = t in (3, 7, 8) or (t == 4 and tok[0] == "c" and not fl & 1)
+        out.append((tok[0], t, fl, sid, ln, a if keep_a else "x", a2 if t == 7 else "x"))
+    return out
+
+
 def run(ctx):
     ok = ctx.prove()
     cases = []
@@ -169,8 +187,32 @@ def run(ctx):
         ctx.violate("h2frames:" + key, "C05 fails on the implementation: %s; %s; frames: %s" % (why, describe(cases[i]), out_i[i][:700]),
                     dict(kind="monitor", case=cases[i], input=describe(cases[i]), impl=out_i[i][:4000], why=why, harness="h2_h trace"))
     found = bool(cats)
-    # the flow-control model also predicts the exact frames in its regime (shared with C06)
-    reg = [c for c in cases if "CA:" not in c][:0]
+    # the whole-trace theorem (H2/H2Trace.v) speaks about H2Trace.trace: the frames of a history as the model renders them.  In the model's
+    # regime that rendering must be the trace the implementation produces, frame for frame (HPACK block lengths and the two frames of the
+    # server preface aside), so that the theorem is about the traces the tracker judges above.
+    import random as _random
+    class _G: pass
+    g = _G(); g.rng = _random.Random(ctx.seed * 7919 + 5); g.tier = ctx.tier; g.cov = dict(distribution={})
+    reg = [c for c in C06.gen_cases(g) if " D:" not in c and "POST" not in c]
+    reg = reg if ctx.tier == "thorough" else reg[:2500]
+    rc_r, out_r, err_r = vlib.run_lines_sharded(exe, reg, args=["trace"])
+    rc_m, out_m, err_m = vlib.run_lines_sharded(tracker, ["T " + c for c in reg])
+    ctx.cov["evaluations"] += len(reg)
+    tdis = []; toracle = 0; tlegal = 0
+    for i in range(min(len(reg), len(out_r), len(out_m))):
+        if out_m[i] == "ORACLE":
+            toracle += 1; continue
+        mt, _, verdict = out_m[i].partition(" |")
+        if verdict != "legal":
+            tdis.append((i, "the model's own trace is judged %s by the tracker, against theorem every_emitted_frame_is_legal_in_every_history" % verdict)); continue
+        tlegal += 1
+        if canon_trace(out_r[i]) != canon_trace(mt):
+            tdis.append((i, "trace differs from H2Trace.trace"))
+    for i, why in tdis[:2]:
+        ctx.violate("h2trace-correspondence", "C05: %s; %s; impl: %s; model: %s" % (why, describe(reg[i]), out_r[i][:600], out_m[i][:600]),
+                    dict(kind="trace-correspondence", case=reg[i], input=describe(reg[i]), impl=out_r[i][:4000], model=out_m[i][:4000], why=why, harness="h2_h trace"))
+    found = found or bool(tdis)
+    ctx.cov["correspondence"]["h2trace"] = dict(cases=len(reg), disagreements=len(tdis), outside_model=toracle, model_traces_legal=tlegal)
     ctx.cov["correspondence"]["h2frames"] = dict(cases=len(cases), tracker_violations=len(cats), segmentation_pairs_checked=seg_checked)
     ctx.cov["distinct_nontrivial"] += len(set(c for c, o in zip(cases, out_i) if " s1." in o or " s3." in o or " s7." in o))
     ctx.cov["rule"] = ("client frame sequences after the preface: exhaustive over a %d-symbol alphabet of valid and invalid frames (every type; stream 0, open, closed, idle, "
